@@ -145,7 +145,8 @@ def run(ctx):
             if o[0] == "ok" and how != "from_ports" and got.shape == want.shape:
                 bad = tuple(int(x) for x in np.argwhere(got != want)[0])
             ctx.violation(what="from_port on a long acquisition", how=how, width=width, mask=mask, big=big, samples=nsamp, first_wrong=bad,
-                          observed=(show(o)[:160] if o[0] != "ok" else (f"shape {got.shape}" if bad is None else f"sample {int(vals[bad[0]])} column {bad[1]} -> {int(got[bad])}")),
+                          observed=(show(o)[:160] if o[0] != "ok" else (f"shape(s) {[np.shape(g) for g in got] if isinstance(got, list) else got.shape}; differs from the bit formula" if bad is None
+                                                                         else f"sample {int(vals[bad[0]])} column {bad[1]} -> {int(got[bad])}")),
                           required="the bit formula of the property" if bad is None else f"{int(want[bad])}")
     # ---- representations: list, byte-swapped, strided, read-only; state dtypes; windows -------------------------
     for _ in range(250 if ctx.quick else 8000):
